@@ -158,8 +158,15 @@ class Parameter(AnnotatedValue):
                     f"Type-checking failed: parameter {self.name}={value} does not have type {self.kind}."
                 )
         elif self.kind == ParamType.FLOAT:
-            if isinstance(value, float) or isinstance(value, int):
+            if isinstance(value, float):
                 pass
+            elif isinstance(value, int):
+                try:
+                    float(value)
+                except OverflowError:
+                    raise JaqalError(
+                        f"Type-checking failed: parameter {self.name}={value} is too large for type {self.kind}."
+                    ) from None
             elif isinstance(value, AnnotatedValue) and value.kind in (
                 ParamType.INT,
                 ParamType.FLOAT,
